@@ -1,2 +1,234 @@
-From Verif Require Import Model.Chain.
-Example C01_placeholder : 1 = 1. Proof. reflexivity. Qed.
+(* Properties/C01.v — Imports compose by ordered JSON merge patch.
+   Only statements closed by [exact]; the proofs live in Proofs/ChainAlgebra*.v.
+   Reading guide: a Go [*value] with its base pointers is a chain of layers (top first); [flat_merge] is value.go's
+   object-prefix/cut rule written directly on JSON; [mp'] is Corr/C01.v's merge patch (the property's fold operator). *)
+From Verif Require Import Base.Bytes Model.Chain Model.Eval Corr.EvalWire Corr.C01
+  Proofs.ChainAlgebraSorted Proofs.ChainAlgebraExport Proofs.ChainAlgebra Proofs.ChainAlgebraDeep
+  Proofs.ChainAlgebraEval Proofs.ChainAlgebraLit Proofs.ChainAlgebraEnv Proofs.ChainAlgebraSrc Proofs.ChainAlgebraLink.
+From Coq Require Import Lia.
+Local Open Scope nat_scope.
+
+(* ---------- 1. export terminates: fuel above the size measure suffices, and more fuel changes nothing ---------- *)
+Theorem C01_export_total : forall (fuel : nat) (c : chain), csize c < fuel -> export fuel c <> None.
+Proof. exact export_total. Qed.
+
+Theorem C01_export_fuel_mono : forall (f f' : nat) (c : chain) (v : xval), export f c = Some v -> f <= f' -> export f' c = Some v.
+Proof. exact export_fuel_mono. Qed.
+
+Theorem C01_csize_cons : forall l r, csize (l :: r) = lsize l + csize r.
+Proof. exact csize_cons. Qed.
+
+(* ---------- 2. the lazy chain of plain JSON layers exports to the closed form flat_merge, at every depth ---------- *)
+Theorem C01_export_flat_layers : forall (js : list json) (fuel : nat),
+  jlsize js < fuel ->
+  exists v, export fuel (concat (map embed js)) = Some v
+            /\ forall fx, x_depth v <= fx -> x_to_json fx v = flat_merge js.
+Proof. exact export_flat_layers. Qed.
+
+(* the unfolding lemmas of the reference semantics *)
+Theorem C01_flat_merge_obj : forall m r, flat_merge (JObj m :: r) = fm_obj (oprefix (JObj m :: r)).
+Proof. exact flat_merge_obj. Qed.
+Theorem C01_flat_merge_arr : forall l r, flat_merge (JArr l :: r) = JArr (map (fun j => flat_merge [j]) l).
+Proof. exact flat_merge_arr. Qed.
+
+(* ... and it IS the layer-by-layer merge-patch fold (the design's export_flat_layers), for key-sorted layers *)
+Theorem C01_flat_merge_fold : forall js : list json,
+  jswf js -> flat_merge js = fold_right (fun j acc => mp' acc (flat_merge [j])) junknown js.
+Proof. exact flat_merge_fold. Qed.
+
+(* ---------- 3. the algebra: appending layer lists = merge-patching their values, EXACTLY under [compat] ---------- *)
+Theorem C01_flat_merge_app : forall g1 g2 : list json,
+  jswf g1 -> jswf g2 -> g1 <> [] ->
+  (compat g1 g2 = true <-> flat_merge (g1 ++ g2) = mp' (flat_merge g2) (flat_merge g1)).
+Proof. exact flat_merge_app. Qed.
+
+Theorem C01_compat_design_implies : forall n g1 g2, compat_design_f n g1 g2 = true -> compat_f n g1 g2 = true.
+Proof. exact compat_design_implies. Qed.
+
+Theorem C01_mp_assoc_compat : forall g1 g2 g3 : list json,
+  jswf g1 -> jswf g2 -> jswf g3 -> g1 <> [] -> g2 <> [] ->
+  compat g2 g3 = true -> compat g1 (g2 ++ g3) = true -> compat g1 g2 = true -> compat (g1 ++ g2) g3 = true ->
+  mp' (mp' (flat_merge g3) (flat_merge g2)) (flat_merge g1) = mp' (flat_merge g3) (mp' (flat_merge g2) (flat_merge g1)).
+Proof. exact mp_assoc_compat. Qed.
+
+Theorem C01_mp_assoc_values : forall a b c : json,
+  jwf a = true -> jwf b = true -> jwf c = true ->
+  flat_merge [a] = a -> flat_merge [b] = b -> flat_merge [c] = c ->
+  (compat [a; b] [c] = true <-> mp' (mp' c b) a = mp' c (mp' b a)).
+Proof. exact mp_assoc_values. Qed.
+
+Theorem C01_mp_assoc_refuted :
+  let a := JObj [("c", JNum "3")] in let b := JNum "5" in let c := JObj [("b", JNum "2")] in
+  mp' (mp' c b) a = JObj [("c", JNum "3")] /\
+  mp' c (mp' b a) = JObj [("b", JNum "2"); ("c", JNum "3")] /\
+  mp' (mp' c b) a <> mp' c (mp' b a) /\ compat [a; b] [c] = false.
+Proof. exact mp_assoc_refuted. Qed.
+
+(* ---------- 4. the property's fold over the imports' VALUES ---------- *)
+(* gs: the layer lists of the merged imports in listing order; o: the own layer *)
+Theorem C01_fold_compat : forall (gs : list (list json)) (o : json),
+  Forall (fun g => jswf g) gs -> Forall (fun g => g <> []) gs -> jwf o = true -> flat_merge [o] = o ->
+  chain_compat (rev gs) = true ->
+  flat_merge (o :: concat (rev gs)) = fold_left mp' (map flat_merge gs ++ [o]) (JObj []).
+Proof. exact C01_fold_compat. Qed.
+
+Theorem C01_fold_partial : forall (gs : list (list json)) (o : json),
+  Forall (fun g => jswf g) gs -> Forall (fun g => g <> []) gs -> jwf o = true -> flat_merge [o] = o ->
+  (forall p, oso_scan p (rev gs) = false) ->
+  flat_merge (o :: concat (rev gs)) = fold_left mp' (map flat_merge gs ++ [o]) (JObj []).
+Proof. exact C01_fold_partial. Qed.
+
+(* [oso_scan]/[kf_groups] are Corr/C01.v's known-class predicate, re-stated over groups *)
+Theorem C01_kf_oso_is_kf_groups : forall c : case,
+  kf_oso c =
+  kf_groups (rev (map (fun im : string * bool =>
+                         if snd im then match alookup (fst im) (w_envs (c_world c)) with
+                                        | Some (LoadOk d') => flat model_fuel (c_world c) d'
+                                        | _ => []
+                                        end
+                         else []) (ed_imports (c_def c)))).
+Proof. exact kf_oso_is_kf_groups. Qed.
+
+Theorem C01_fold_partial_kf : forall (gs : list (list json)) (o : json),
+  Forall (fun g => jswf g) gs -> Forall (fun g => g <> []) gs -> jwf o = true -> flat_merge [o] = o ->
+  Forall (fun l => jdepth l <= wire_fuel) (concat (rev gs)) -> kf_groups (rev gs) = false ->
+  flat_merge (o :: concat (rev gs)) = fold_left mp' (map flat_merge gs ++ [o]) (JObj []).
+Proof. exact C01_fold_partial_kf. Qed.
+
+(* every depth, fan-in and repetition: over Corr/C01.v's [flat] of a whole import graph *)
+Theorem C01_deep : forall (fuel : nat) (W : world) (d : envdef),
+  wgood fuel W d -> flat_merge (flat fuel W d) = wspec fuel W d.
+Proof. exact C01_deep. Qed.
+
+Theorem C01_wgood_b_ok : forall fuel W d, wgood_b fuel W d = true -> wgood fuel W d.
+Proof. exact wgood_b_ok. Qed.
+
+(* ---------- 5. link to the evaluator ---------- *)
+(* literal expressions evaluate to [lval]: own representation over the base handed down by declare; only memo entries in the
+   expression's own id subtree are added *)
+Theorem C01_lit_eval : forall (W : world) (m : nat) (x : expr), lit_ok m x = true ->
+  forall (fuel : nat) (E : ectx) (xbase : chain) (id : eid), 2 * m <= fuel ->
+    lit_run (eval_expr W fuel E x false xbase id) id (lval m x xbase).
+Proof. exact lit_eval. Qed.
+
+(* on acyclic fault-free worlds of literal environments eval_env computes the pure denotation ... *)
+Theorem C01_eval_env_den : forall (W : world) (M0 : nat) (rank : string -> nat), lit_world W M0 rank ->
+  forall (fuel : nat) (root name : string) (d : envdef),
+    need M0 rank name <= fuel -> env_of W name = Some d -> fst (eval_env W fuel root name d st0) = dn W M0 rank name d.
+Proof. exact eval_env_den. Qed.
+
+(* ... which is the own layer over the merged imports' chains, last import first; merge:false contributes nothing ... *)
+Theorem C01_den_flat_shape : forall (W : world) (M0 : nat) (rank : string -> nat), lit_world W M0 rank ->
+  forall (name : string) (d : envdef), env_of W name = Some d ->
+    dn W M0 rank name d =
+    lval M0 (own_expr d) (concat (rev (map (fun nd => dn W M0 rank (fst nd) (snd nd)) (mimports_of W (ed_imports d))))).
+Proof. exact den_flat_shape. Qed.
+
+(* ... while imports.<x> holds x's own chain whatever its merge flag *)
+Theorem C01_imports_name_holds_den : forall (W : world) (M0 : nat) (rank : string -> nat) (d : envdef) (x : string) (merge : bool)
+    (dx : envdef) (f : nat),
+  In (x, merge) (ed_imports d) -> env_of W x = Some dx ->
+  value_access (S (S f)) (imports_value (pmy W M0 rank (ed_imports d) [])) [AName x] = (dn W M0 rank x dx, 0%N).
+Proof. exact imports_name_holds_den. Qed.
+
+(* the exported value of the evaluator's chain is flat_merge of the flattened layer list (duplicated bases are absorbed) *)
+Theorem C01_eval_env_exports_flat : forall (W : world) (M0 : nat) (rank : string -> nat),
+  lit_world W M0 rank ->
+  (forall n d, env_of W n = Some d -> forallb (fun kv => negb (reserved (fst kv))) (ed_values d) = true) ->
+  M0 <= wire_fuel ->
+  forall (fuel : nat) (root name : string) (d : envdef),
+    need M0 rank name <= fuel -> env_of W name = Some d ->
+    let c := fst (eval_env W fuel root name d st0) in
+    (forall fx v, export fx c = Some v -> xjson v = flat_merge (flat (S (rank name)) W d))
+    /\ (forall fx, csize c < fx -> export fx c <> None).
+Proof. exact eval_env_exports_flat. Qed.
+
+(* C01 for the evaluator model, outside the known class, at every depth / fan-in / repetition / merge flag / listing order *)
+Theorem C01_evaluator_lit : forall (W : world) (M0 : nat) (rank : string -> nat),
+  lit_world W M0 rank ->
+  (forall n d, env_of W n = Some d -> forallb (fun kv => negb (reserved (fst kv))) (ed_values d) = true) ->
+  M0 <= wire_fuel ->
+  forall (fuel : nat) (root name : string) (d : envdef),
+    need M0 rank name <= fuel -> env_of W name = Some d -> wgood (S (rank name)) W d ->
+    forall fx v, export fx (fst (eval_env W fuel root name d st0)) = Some v ->
+      xjson v = wspec (S (rank name)) W d /\ forall fj, x_depth v <= fj -> x_to_json fj v = wspec (S (rank name)) W d.
+Proof. exact C01_evaluator_lit. Qed.
+
+(* ---------- the unrestricted property is false of the evaluator ---------- *)
+(* the full intended statement for literal worlds: C01_evaluator_lit WITHOUT the known-class hypothesis [wgood] *)
+Definition C01_full_statement : Prop :=
+  forall (W : world) (M0 : nat) (rank : string -> nat),
+    lit_world W M0 rank ->
+    (forall n d, env_of W n = Some d -> forallb (fun kv => negb (reserved (fst kv))) (ed_values d) = true) ->
+    M0 <= wire_fuel ->
+    forall (fuel : nat) (root name : string) (d : envdef),
+      need M0 rank name <= fuel -> env_of W name = Some d ->
+      forall fx v, export fx (fst (eval_env W fuel root name d st0)) = Some v -> xjson v = wspec (S (rank name)) W d.
+
+Theorem C01_fold_refuted :
+  model_value "F" wit_F = Some (JObj [("x", JObj [("c", JNum "3")])]) /\
+  model_value "D" wit_D = Some (JObj [("x", JObj [("b", JNum "2")])]) /\
+  model_value "E" wit_E = Some (JObj [("x", JObj [("b", JNum "2")])]) /\
+  fold_left mp' [JObj [("x", JObj [("c", JNum "3")])]; JObj [("x", JObj [("b", JNum "2")])]; JObj []] (JObj [])
+    = JObj [("x", JObj [("b", JNum "2"); ("c", JNum "3")])] /\
+  flat_merge (flat 8 wit_W wit_E) = JObj [("x", JObj [("b", JNum "2")])] /\
+  wspec 8 wit_W wit_E = JObj [("x", JObj [("b", JNum "2"); ("c", JNum "3")])] /\
+  kf_groups (rev (map (flat 7 wit_W) (merged_defs wit_W wit_E))) = true.
+Proof. exact C01_fold_refuted. Qed.
+
+Theorem C01_full_statement_refuted : ~ C01_full_statement.
+Proof.
+  intros H.
+  assert (LW : lit_world wit_W 4 wit_rank) by (apply lit_world_b_ok; vm_compute; reflexivity).
+  assert (NR := no_reserved_b_ok wit_W eq_refl).
+  specialize (H wit_W 4 wit_rank LW NR ltac:(vm_compute; lia) 64 "" "E" wit_E ltac:(vm_compute; lia) eq_refl 64).
+  assert (X : export 64 (fst (eval_env wit_W 64 "" "E" wit_E st0))
+              = Some (XObj false false [("x", XObj false false [("b", XScalar false false (SNum "2"))])]))
+    by (vm_compute; reflexivity).
+  specialize (H _ X).
+  assert (Y : wspec (S (wit_rank "E")) wit_W wit_E = JObj [("x", JObj [("b", JNum "2"); ("c", JNum "3")])])
+    by (vm_compute; reflexivity).
+  assert (Z : xjson (XObj false false [("x", XObj false false [("b", XScalar false false (SNum "2"))])])
+              = JObj [("x", JObj [("b", JNum "2")])]) by (vm_compute; reflexivity).
+  rewrite Y, Z in H. clear -H. discriminate H.
+Qed.
+
+(* ---------- non-vacuity ---------- *)
+(* compat: true at nested depth; strictly weaker than the design's; false exactly on object / non-object / object *)
+Example C01_compat_examples :
+  compat [JObj [("a", JObj [("x", JNum "1")])]; JObj [("a", JObj [("y", JNum "2")])]] [JObj [("a", JObj [("z", JNum "3")]); ("b", JNum "4")]] = true
+  /\ compat [JObj [("a", JNum "1")]; JNum "5"] [JObj []] = true
+  /\ compat_design_f 16 [JObj [("a", JNum "1")]; JNum "5"] [JObj []] = false
+  /\ compat [JObj [("a", JObj [("c", JNum "3")])]; JObj [("a", JNum "5")]] [JObj [("a", JObj [("b", JNum "2")])]] = false
+  /\ flat_merge ([JObj [("a", JObj [("x", JNum "1")])]; JObj [("a", JObj [("y", JNum "2")])]] ++ [JObj [("a", JObj [("z", JNum "3")]); ("b", JNum "4")]])
+     = JObj [("a", JObj [("x", JNum "1"); ("y", JNum "2"); ("z", JNum "3")]); ("b", JNum "4")].
+Proof. vm_compute. repeat split. Qed.
+
+(* export_flat_layers on a 3-layer chain with a cut *)
+Example C01_export_flat_example :
+  let js := [JObj [("k", JObj [("p", JBool true)])]; JObj [("k", JStr "s"); ("q", JNull)]; JObj [("k", JObj [("hidden", JNum "0")])]] in
+  option_map xjson (export 64 (concat (map embed js))) = Some (flat_merge js)
+  /\ flat_merge js = JObj [("k", JObj [("p", JBool true)]); ("q", JNull)].
+Proof. vm_compute. split; reflexivity. Qed.
+
+(* C01_deep / C01_evaluator_lit: a diamond with repetition and a merge:false import, depth 2 *)
+Example C01_wgood_G : wgood 3 wit_W2 wit_G.
+Proof. apply wgood_b_ok. vm_compute. reflexivity. Qed.
+
+Example C01_lit_world_W2 : lit_world wit_W2 4 wit_rank.
+Proof. apply lit_world_b_ok. vm_compute. reflexivity. Qed.
+
+Example C01_evaluator_G : forall fuel root fx v,
+  11 <= fuel -> export fx (fst (eval_env wit_W2 fuel root "G" wit_G st0)) = Some v ->
+  xjson v = JObj [("x", JObj [("a", JNum "1"); ("b", JNum "2"); ("c", JNum "3"); ("g", JBool true)]); ("y", JArr [JNum "1"])].
+Proof.
+  intros fuel root fx v Hf E.
+  exact (proj1 (C01_evaluator_lit wit_W2 4 wit_rank C01_lit_world_W2 (no_reserved_b_ok wit_W2 eq_refl) ltac:(vm_compute; lia)
+                  fuel root "G" wit_G Hf eq_refl C01_wgood_G fx v E)).
+Qed.
+
+(* the same value, computed by the model directly *)
+Example C01_evaluator_G_run :
+  option_map xjson (ob_value (run 64 wit_W2 "G" wit_G))
+  = Some (JObj [("x", JObj [("a", JNum "1"); ("b", JNum "2"); ("c", JNum "3"); ("g", JBool true)]); ("y", JArr [JNum "1"])]).
+Proof. vm_compute. reflexivity. Qed.
